@@ -298,7 +298,16 @@ func (e *enc) call(st *State, c *ssa.CallCommon, ins ssa.Instruction, pos token.
 			}
 			env := e.envFor(st, e.entry)
 			e.bindDollar(env, fn, c, args, nil)
-			g := e.evalBool(cc.expr, env, "call-site assertion "+site)
+			var g string
+			if e.firstPass {
+				// ghost cells bound at call sites encoded later are not known yet (the second pass has them)
+				var ok bool
+				if g, ok = e.tryEvalBool(cc.expr, env, "call-site assertion "+site); !ok {
+					continue
+				}
+			} else {
+				g = e.evalBool(cc.expr, env, "call-site assertion "+site)
+			}
 			key := cc.label
 			if key == "" {
 				key = "assert"
